@@ -63,7 +63,9 @@ try:
         for name, st, keys in ex.map(run, list(items())):
             res.append((name, st, keys))
             if mode == 'refactors':
-                if st != 'silent':
+                if st == 'APPLY-FAIL':
+                    print('APPLY-FAIL %s (patch no longer applies to /repo HEAD)' % name, flush=True)
+                elif st != 'silent':
                     print('FALSE-ALARM %s: %s' % (name, '; '.join(keys[:5])), flush=True)
             else:
                 det = 'detected: ' + ';'.join(keys[:5]) if st == 'alarm' else ('patch does not apply' if st == 'APPLY-FAIL' else 'MISSED')
